@@ -11,6 +11,7 @@ PROP="${1:-}"; MODE="${2:-quick}"
 [ -n "$PROP" ] || { echo "usage: run.sh <property> quick|thorough|--replay <file>" >&2; exit 2; }
 case "$PROP" in
   C38) ENGINE=sim_pb;   SET=plain; DUAL=1 ;;
+  C07) ENGINE=sim_iter; SET=plain ;;
   *) echo "HARNESS-ERROR: no engine for property $PROP" >&2; exit 2 ;;
 esac
 TDIR="$ROOT/target/$SET"
